@@ -572,6 +572,7 @@ class Executor:
         self.argvals = {}    # step index -> built argument values
         self.draws = {}      # step index -> list of recorded randn arrays
         self.buffers = {}    # (client, name) -> ndarray reused and refilled in place by a client
+        self.cfg_at = {}     # step index -> (class, configuration) of the object at that call
         self.seq = 0
 
     def _target(self, step):
@@ -625,6 +626,7 @@ class Executor:
         obj = self.objs.get(step.get("obj")) if "obj" in step else None
         if obj is not None:
             rec["obj_before"] = digest(_objstate(obj))
+            self.cfg_at[i] = self.objcfg.get(step["obj"])     # configuration in force at this call
         w.clock.set_script(fault.get("clock") or step.get("clock"))
         reads0, el0 = w.clock.reads, w.clock.elapsed
         w.rng_log = []
@@ -701,6 +703,16 @@ class Executor:
                     rec["exc"] = type(e).__name__
                     rec["exc_msg"] = str(e)[:200]
                 rec["rng_after"] = rng_digest(np.random.get_state())
+            elif k == "setattr":
+                # a client re-configures a shared solver between calls (plain attribute write);
+                # the reference for later calls is a fresh object constructed with the new value
+                rec = {"i": i, "k": "setattr", "ok": "ret", "seq_invoke": self.seq}
+                self.seq += 1
+                obj = self.objs.get(step["obj"])
+                if obj is not None:
+                    setattr(obj, step["attr"], step["v"])
+                    cls_, cfg_ = self.objcfg[step["obj"]]
+                    self.objcfg[step["obj"]] = (cls_, dict(cfg_, **{step.get("cfg_key", step["attr"]): step["v"]}))
             elif k == "rng":
                 rec = {"i": i, "k": "rng", "seq_invoke": self.seq}
                 self.seq += 1
